@@ -481,6 +481,75 @@ class Sheet(Sub):
             return ('raised', e)
 
 
+class Chain(Sub):
+    name = 'c03.chain'
+    rule = ('depth ladder n = 1..80 of re-entrant evaluation on one parser: cells A1 = A2+1, ..., A(n-1) = An+1, An = a constant '
+            '(number, text, logical, blank, error) resolved by a cell listener that evaluates the referenced cell on the SAME parser '
+            '(n nested evaluations and n nested emits of the same event), with a second, counting listener subscribed after the '
+            'first: value of A1, every listener called exactly once per reference at every depth; also the chain through '
+            'variables (callVariable) and through a custom function; non-trivial = all')
+    min_cases = 100
+    min_nontrivial = 100
+
+    def cases(self, tier, unit):
+        for n in range(1, 81):      # the interpreter's recursion limit is reached at about 120 nested evaluations
+            for kind in ('cell', 'var', 'fn'):
+                yield [n, kind]
+
+    def check(self, env, case):
+        n, kind = case
+        env.nt()
+        out = []
+        for const_text, step, want in (('7', '+1', 7 + n - 1), ('"t"', '&"x"', 't' + 'x' * (n - 1)), ('TRUE', '', True), ('IF(TRUE,,1)', '', None),
+                                       ('1/0', '+1', '#DIV/0!')):
+            if kind == 'var' and want is None:
+                continue        # a callVariable listener cannot answer "blank": None leaves the name unresolved
+            p = env.new_parser()
+            counts = {}
+            second = []
+
+            def formula(i):
+                if i == n:
+                    return const_text
+                ref = {'cell': 'A%d' % (i + 1), 'var': 'v%s' % ('abcdefghij'[(i + 1) // 100] + 'abcdefghij'[(i + 1) // 10 % 10] + 'abcdefghij'[(i + 1) % 10]),
+                       'fn': 'CELL(%d)' % (i + 1)}[kind]
+                return ref + step
+
+            def resolve(i):
+                counts[i] = counts.get(i, 0) + 1
+                r = p.parse(formula(i))
+                if r['error'] is not None:
+                    return env.dec({'$err': r['error']})
+                return r['result']
+            if kind == 'cell':
+                p.on('callCellValue', lambda c, s: s(resolve(c.row.index + 1)))
+                p.on('callCellValue', lambda c, s: second.append(c.row.index + 1))
+            elif kind == 'var':
+                idx = lambda name: 'abcdefghij'.index(name[1]) * 100 + 'abcdefghij'.index(name[2]) * 10 + 'abcdefghij'.index(name[3])
+                mine = lambda name: len(name) == 4 and name[0] == 'v' and all(ch in 'abcdefghij' for ch in name[1:])
+                p.on('callVariable', lambda name, s: s(resolve(idx(name))) if mine(name) else None)
+                p.on('callVariable', lambda name, s: second.append(idx(name)) if mine(name) else None)
+            else:
+                p.set_function('CELL', lambda i: resolve(i))
+                p.on('callFunction', lambda name, args, s: second.append(args[0]) if name == 'CELL' else None)
+            env.evals += n
+            try:
+                r = env.out(p.parse(formula(1)))
+            except Exception as e:
+                r = ['x', type(e).__name__]
+            exp = ['e', want] if isinstance(want, str) and want.startswith('#') else ['v', want]
+            if r != exp:
+                out.append(fail('a chain of %d %s references resolved by nested evaluation on one parser (last one = %s): the first gives %r, '
+                                'expected %r' % (n, kind, const_text, r, exp), exp, r))
+                break
+            wantc = dict((i, 1) for i in range(2, n + 1))
+            if counts != wantc or sorted(second) != list(range(2, n + 1)):
+                out.append(fail('a chain of %d %s references: resolutions per reference %r..., second listener saw %d of %d references' % (
+                    n, kind, sorted(counts.items())[:3], len(second), n - 1), n - 1, len(second)))
+                break
+        return out
+
+
 # --------------------------------------------------------------------------
 # bindings are per instance
 
@@ -592,4 +661,4 @@ class Bindings(Sub):
         return None
 
 
-SUBS = [Threads(), ThreadsCold(), Nested(), Sheet(), Bindings()]
+SUBS = [Threads(), ThreadsCold(), Nested(), Sheet(), Chain(), Bindings()]
